@@ -63,10 +63,16 @@ structure Thread where
   retAt : Time := 0
   /-- ghost: was the session already closed when the call started -/
   dieAtCall : Bool := false
+  /-- `len(b)` of this `Read` call; bytes it returned -/
+  bsz : Nat := 1
+  got : Nat := 0
 deriving DecidableEq, Repr
 
 structure Sh where
-  readable : Nat := 0
+  /-- `len(s.bufptr)`: rest of a message that did not fit the buffer of an earlier `Read` -/
+  left : Nat := 0
+  /-- sizes (> 0) of the complete messages waiting in the receive queue (`PeekSize` = head) -/
+  queue : List Nat := []
   inflight : Nat := 0
   wnd : Nat := 1
   rtok : Bool := false
@@ -87,6 +93,25 @@ structure State where
   sh : Sh
   ths : List Thread
 deriving DecidableEq, Repr
+
+/-- number of `Read` calls' worth of data: leftover bytes count as readable -/
+def Sh.readable (sh : Sh) : Nat := sh.left + sh.queue.length
+
+/-- `len(s.bufptr) > 0 || s.kcp.PeekSize() > 0` -/
+def more (left : Nat) (queue : List Nat) : Bool := decide (0 < left) || !queue.isEmpty
+
+structure RdRes where
+  left : Nat
+  queue : List Nat
+  n : Nat
+
+/-- the locked section of `Read` with a buffer of `b` bytes: `bufptr` first; else the next message,
+directly if it fits, else through `recvbuf` and the rest stays in `bufptr`; `none`: nothing to read -/
+def take (left : Nat) (queue : List Nat) (b : Nat) : Option RdRes :=
+  if 0 < left then some ⟨left - min b left, queue, min b left⟩
+  else match queue with
+    | m :: q => if m ≤ b then some ⟨0, q, m⟩ else some ⟨m - b, q, b⟩
+    | [] => none
 
 /-- result of one thread step -/
 structure TRes where
@@ -115,8 +140,12 @@ def Thread.stopDrain (cfg : Cfg) (t : Thread) : Thread :=
   { t with armed := none, buf := cfg.async && t.armed.isSome && t.buf }
 
 /-- return from the call (`defer timeout.Stop()`) -/
-def Thread.finish (t : Thread) (r : Ret) (now : Time) : Thread :=
-  { t with pc := .done, ret := some r, retAt := now, armed := none, buf := false }
+def Thread.finish (t : Thread) (r : Ret) (now : Time) (n : Nat := 0) : Thread :=
+  { t with pc := .done, ret := some r, retAt := now, armed := none, buf := false, got := n }
+
+/-- the caller's state at the start of a call -/
+def Thread.fresh (k : Kind) (die : Bool) (b : Nat) : Thread :=
+  { kind := k, pc := .reset, dieAtCall := die, bsz := b }
 
 /-! ## one step of one caller -/
 
@@ -124,11 +153,12 @@ def tstepRead (cfg : Cfg) (sh : Sh) (t : Thread) (ch : Choice) : Option TRes :=
   match t.pc, ch with
   | .reset, .go => some ⟨sh, { t.loadDeadline cfg sh.rd with pc := .check }⟩
   | .check, .go =>
-    if 0 < sh.readable then
-      some ⟨{ sh with readable := sh.readable - 1,
-                      rtok := sh.rtok || (cfg.chain && decide (0 < sh.readable - 1)) },
-            t.finish .ok sh.now⟩
-    else some ⟨sh, { t with pc := .sel }⟩
+    match take sh.left sh.queue t.bsz with
+    | some r =>
+      -- chainReadEvent(): re-notify if something is left (repair of D5)
+      some ⟨{ sh with left := r.left, queue := r.queue, rtok := sh.rtok || (cfg.chain && more r.left r.queue) },
+            t.finish .ok sh.now r.n⟩
+    | none => some ⟨sh, { t with pc := .sel }⟩
   | .sel, .tok => if sh.rtok then some ⟨{ sh with rtok := false }, { t with pc := .woken }⟩ else none
   | .sel, .timeout => if t.c && t.buf then some ⟨sh, t.finish .timeout sh.now⟩ else none
   | .sel, .err => if sh.rerr then some ⟨sh, t.finish .sockerr sh.now⟩ else none
@@ -195,14 +225,20 @@ def Thread.armedGe (t' : Time) (t : Thread) : Bool :=
   | some w => decide (t' ≤ w)
   | none => true
 
+/-- is the object the call is made on already closed -/
+def State.closedFor (s : State) (k : Kind) : Bool :=
+  match k with
+  | .accept => s.sh.ldie
+  | _ => s.sh.die
+
 /-! ## labels and the global step -/
 
 inductive Label
   | thr (i : Nat) (ch : Choice)
   | fire (i : Nat)
-  | call (i : Nat)
+  | call (i : Nat) (b : Nat)   -- caller i starts a call (Read: with a buffer of b bytes)
   | collect (i : Nat)          -- the caller's result has been observed (done → idle)
-  | arrive (k : Nat)           -- kcpInput: k more messages readable; notify readers iff readable, writers iff room
+  | arrive (ms : List Nat)     -- kcpInput: messages of these sizes become readable; notify readers iff PeekSize > 0, writers iff room
   | opn (j : Nat)              -- kcpInput: j segments acknowledged; same two notifications
   | pump                       -- update(): notify writers iff room (not after Close)
   | setRD (d : Option Time)
@@ -233,25 +269,24 @@ def step (cfg : Cfg) (s : State) : Label → Option State
       | some t' => some { s with ths := s.ths.set i t' }
       | none => none
     | none => none
-  | .call i =>
+  | .call i b =>
     match s.ths[i]? with
     | some t =>
       if t.pc = .idle then
-        some { s with ths := s.ths.set i { kind := t.kind, pc := .reset,
-                                           dieAtCall := (match t.kind with | .accept => s.sh.ldie | _ => s.sh.die) } }
+        some { s with ths := s.ths.set i (Thread.fresh t.kind (s.closedFor t.kind) b) }
       else none
     | none => none
   | .collect i =>
     match s.ths[i]? with
     | some t => if t.pc = .done then some { s with ths := s.ths.set i { t with pc := .idle } } else none
     | none => none
-  | .arrive k =>
-    some { s with sh := { s.sh with readable := s.sh.readable + k,
-                                    rtok := s.sh.rtok || decide (0 < s.sh.readable + k),
+  | .arrive ms =>
+    some { s with sh := { s.sh with queue := s.sh.queue ++ ms,
+                                    rtok := s.sh.rtok || !(s.sh.queue ++ ms).isEmpty,
                                     wtok := s.sh.wtok || decide (s.sh.inflight < s.sh.wnd) } }
   | .opn j =>
     some { s with sh := { s.sh with inflight := s.sh.inflight - j,
-                                    rtok := s.sh.rtok || decide (0 < s.sh.readable),
+                                    rtok := s.sh.rtok || !s.sh.queue.isEmpty,
                                     wtok := s.sh.wtok || decide (s.sh.inflight - j < s.sh.wnd) } }
   | .pump =>
     if s.sh.die then some s
